@@ -1,6 +1,7 @@
 package props
 
 import (
+	"runtime"
 	"bytes"
 	"context"
 	"fmt"
@@ -39,6 +40,9 @@ type C11Case struct {
 	// Early (caller-cancel): the caller calls Header() and Trailer() right after its first receive, long before the
 	// stream has ended (Trailer() then has nothing to report)
 	Early bool `json:"early,omitempty"`
+	// ParkSend (caller-cancel, bidi): when the caller cancels, one of its own SendMsg calls is parked inside the
+	// transport write (a second goroutine of the caller, as the API permits)
+	ParkSend bool `json:"park_send,omitempty"`
 }
 
 func genC11(t *rapid.T) C11Case {
@@ -59,6 +63,7 @@ func genC11(t *rapid.T) C11Case {
 		c.M = rapid.IntRange(0, 8).Draw(t, "m")
 		c.SendFail = c.Kind == kit.KindBidi && rapid.IntRange(0, 2).Draw(t, "send_fail") == 0
 		c.Early = rapid.IntRange(0, 2).Draw(t, "early") == 0
+		c.ParkSend = c.Kind == kit.KindBidi && !c.SendFail && rapid.IntRange(0, 2).Draw(t, "park_send") == 0
 	case "client-extra":
 		c.Extra = rapid.IntRange(1, 6).Draw(t, "extra")
 		c.Shape = rapid.SampledFrom([]string{"bodies-after-halfclose", "bodies-after-return", "trailers-after-halfclose", "mixed"}).Draw(t, "shape")
@@ -260,6 +265,13 @@ func execC11(t *testing.T, c C11Case) (v Verdict) {
 				// dispatch is parked on the unread stream it holds the registry mutex,
 				// and callers queueing for a mutex are never "durably blocked".
 				startBystanders(cc, &wg)
+				if c.ParkSend {
+					w.Links[0].A.Hold(func(r *kit.Rpc) bool { return bytes.Equal(unwrapBytes(r.GetBody().GetData()), []byte("parked-send")) })
+					go func() { _ = kit.SendBytes(cs, []byte("parked-send")) }()
+					for k := 0; k < 20 && len(w.Links[0].Held()) == 0; k++ {
+						runtime.Gosched() // (no settle here: see above)
+					}
+				}
 				if c.SendFail {
 					// a string field with invalid UTF-8 cannot be marshalled: the send fails before anything is written
 					if err := cs.SendMsg(&wrapperspb.StringValue{Value: "\xff\xfe"}); err == nil {
@@ -475,7 +487,7 @@ func execC11(t *testing.T, c C11Case) (v Verdict) {
 		nt = nt || c.N-c.K >= 2
 	}
 	if c.Mode == "caller-cancel" {
-		labels = append(labels, fmt.Sprintf("unread_responses=%d", c.M), fmt.Sprintf("send_fail=%v", c.SendFail), fmt.Sprintf("early_trailer=%v", c.Early))
+		labels = append(labels, fmt.Sprintf("unread_responses=%d", c.M), fmt.Sprintf("send_fail=%v", c.SendFail), fmt.Sprintf("early_trailer=%v", c.Early), fmt.Sprintf("park_send=%v", c.ParkSend))
 		nt = nt || c.M >= 3
 	}
 	if c.Extra > 0 {
